@@ -224,3 +224,18 @@ Theorem C03_example_repeated_keys :
   end.
 Proof. exact example_repeated_keys. Qed.
 Print Assumptions C03_example_repeated_keys.
+
+(* ---- tie of the hand-written scanners to the literals of the CURRENT source (Generated/YannyLits.v is regenerated
+   from yanny.py on every run by translate/c01.py; the scanners and their attribution: C01/Lits.v) ---- *)
+From PV Require Import Generated.YannyLits C01.Lits.
+
+Theorem C03_source_regexes_are_the_scanners : yanny_regexes = scanner_regexes.
+Proof. exact regexes_are_the_scanners. Qed.
+Print Assumptions C03_source_regexes_are_the_scanners.
+
+Theorem C03_source_tables_are_the_scanners :
+  yanny_dtmap_write = scanner_dtmap_write /\ yanny_dtmap_read = scanner_dtmap_read /\
+  yanny_int_types = scanner_int_types /\ yanny_float_types = scanner_float_types /\
+  yanny_protect_condition = scanner_protect_condition.
+Proof. exact tables_are_the_scanners. Qed.
+Print Assumptions C03_source_tables_are_the_scanners.
